@@ -74,6 +74,25 @@ class Const:
 
 
 @dataclass
+class Bytes:
+    """An immutable byte string (pvc/bytesmodel.py)."""
+
+
+@dataclass
+class Callback:
+    """A user-supplied callable taking one 1-D array and returning an array of the same length whose element c is an
+    uninterpreted function of the argument's contents and c (deterministic, no side effects: assumed)."""
+    kind: str = "bool"
+    dtype: str = "b1"
+
+
+@dataclass
+class SeqOf:
+    """A list/tuple of symbolic length whose items all have the given type (scalars or Tup of scalars)."""
+    item: object = None
+
+
+@dataclass
 class Tup:
     """A tuple of typed components (e.g. the shape of an n-d array that is otherwise opaque)."""
     items: list = field(default_factory=list)
